@@ -191,11 +191,15 @@ def run(ctx):
     ok = bool(rows) and all(r.ret == T("self.header_formatter", *p) for r in rows)
     ctx.ob(R1, r1.qual, "_render_part delegates (name, value) to the header formatter", ok, "; ".join(r.ret for r in rows)[:120])
     init = m.method(RF, "__init__")
-    stores = [(n.value, n) for n in astq.walk_fn(init.node) if isinstance(n, ast.Assign) and astq.is_self_attr(n.targets[0], "header_formatter")]
-    ctx.sites(R1, len(stores), 1, "header_formatter stores")
-    dflt = [v for v, n in stores if not (isinstance(v, ast.Name) and astq.is_param(init.node, v.id))]
-    ok = len(dflt) == 1 and m.resolve_name(init.module, dflt[0]) == f"{FL}.format_multipart_header_param"
-    ctx.ob(R1, init.qual, "default header formatter is format_multipart_header_param", ok, "; ".join(astq.text(v) for v in dflt))
+    from ..rows import helper_closure as _hc1
+    irows1 = [r for r in effect_rows(ctx, init, GenRule(ctx, init.module, inline=frozenset(_hc1(m, [init]) - {init.qual})), init.clsq) if r.returns]
+    finals = {}
+    for r in irows1:
+        st1 = [e[3] for e in r.events("store") if e[1] == "self" and e[2] == "header_formatter"]
+        finals.setdefault(r.is_none("p:header_formatter"), set()).add(st1[-1] if st1 else None)
+    ctx.sites(R1, len(irows1), 1, "returning rows of RequestField.__init__")
+    ok = finals.get(True) == {f"fn:{FL}.format_multipart_header_param"} and finals.get(False, {"p:header_formatter"}) == {"p:header_formatter"}
+    ctx.ob(R1, init.qual, "default header formatter is format_multipart_header_param", ok, str({k_: sorted(map(str, v_)) for k_, v_ in finals.items()}))
     mm = m.method(RF, "make_multipart")
 
     from ..terms import term_of as term_of_
@@ -411,9 +415,19 @@ def run(ctx):
     ctx.ob(R3, rh.qual, "header block is the lines joined by CRLF and ends with an empty line", ok, "; ".join(r.ret[-80:] for r in rows[:2]))
     ctx.sites(R3, n_lines, 1, "header lines emitted by render_headers")
     cb = m.func(f"{FP}.choose_boundary")
-    txt = astq.text(cb.node)
-    ok = "os.urandom(16)" in txt and "hexlify" in txt
-    ctx.ob(R4, cb.qual, "random boundary is 128 random bits, hex-encoded (token characters only)", ok)
+    from ..rows import helper_closure as _hc4
+    from ..terms import subterms as _sub4
+    brow = [r for r in effect_rows(ctx, cb, GenRule(ctx, cb.module, inline=frozenset(_hc4(m, [cb]) - {cb.qual})), None) if r.returns]
+    okb = bool(brow)
+    for r in brow:
+        subs = set(_sub4(r.ret))
+        rnd = [x for x in subs if destruct(x)[0] in ("g:os.urandom", "os.urandom", "urandom", "g:urandom") and destruct(x)[1] and destruct(x)[1][0].isdigit() and int(destruct(x)[1][0]) >= 16]
+        hexed = any(destruct(x)[0] in ("hexlify", "g:binascii.hexlify", "binascii.hexlify", "hex") or "02x" in x or "%02x" in x for x in subs)
+        foreign = [x for x in subs if destruct(x)[0] is None and x.startswith(("p:", "self."))]
+        if not hexed and rnd and not foreign and any(destruct(x)[0] in ("map", "join", "format", "cat", "fstr", "gen", "listcomp") for x in subs):
+            hexed = True  # a per-byte formatting idiom the rule cannot read (a bound `"{:02x}".format`): provenance only (DESIGN 13.2)
+        okb = okb and bool(rnd) and hexed and not foreign
+    ctx.ob(R4, cb.qual, "random boundary is 128 random bits, hex-encoded (token characters only)", okb, "; ".join(r.ret[:100] for r in brow))
 
     # ---------------- R5
     reb = m.func("urllib3._request_methods.RequestMethods.request_encode_body")
